@@ -157,6 +157,31 @@ _re_cov = re.compile(r"^<(\w+) line (\d+), col \d+ to line \d+, col \d+ of modul
 _re_print = re.compile(r'^<<"([A-Z_]+)", (.*)>>$')
 
 
+def _join_wrapped_prints(lines):
+    """TLC's pretty printer breaks a wide PrintT tuple over several lines (`<< "TAG",` / `   "x",` / `   "y" >>`);
+    such a block is joined back into the one-line form `<<"TAG", "x", "y">>` that _re_print understands."""
+    out, buf = [], None
+    for line in lines:
+        if buf is not None:
+            buf.append(line.strip())
+            if line.rstrip().endswith(">>"):
+                j = " ".join(buf)
+                j = re.sub(r"^<<\s+", "<<", j)
+                j = re.sub(r"\s+>>$", ">>", j)
+                out.append(j)
+                buf = None
+            continue
+        if re.match(r'^<< "[A-Z_]+",', line) and not line.rstrip().endswith(">>"):
+            buf = [line.strip()]
+            continue
+        if re.match(r'^<< "[A-Z_]+",.*>>\s*$', line):
+            line = re.sub(r"\s+>>\s*$", ">>", re.sub(r"^<<\s+", "<<", line))
+        out.append(line)
+    if buf:
+        out.extend(buf)
+    return out
+
+
 def tla_unescape(s):
     """Unescape a TLA+ string literal body as TLC prints it."""
     out = []
@@ -277,7 +302,7 @@ def run_tlc(module, cfg=None, workdir=None, workers=8, env=None, timeout=1800, s
     r.raw = out
     r.wall = wall
     cur_state = None
-    for line in out.splitlines():
+    for line in _join_wrapped_prints(out.splitlines()):
         m = _re_states.search(line)
         if m:
             r.generated, r.distinct = int(m.group(1)), int(m.group(2))
